@@ -96,7 +96,8 @@ Print Assumptions C07_devlist_heap_safe.
 (* ================= the public application calls (Model/ApiDefs.v) =================
    The same conclusion for histories in which the application also calls SendIsoAddressClaim, SendProductInformation,
    SendConfigurationInformation, SendTx/RxPGNList, SendHeartbeat (both), SetDeviceInformationInstances, SetDeviceInformation, Restart,
-   SetMode and the Set/Extend...Messages setters at any time, with ANY device index (statements in Spec/ApiSafeSpec.v; no call is
+   SetMode, the Set/Extend...Messages setters (node-wide and per device: ExtendTransmitMessages / ExtendReceiveMessages),
+   SetHandleOnlyKnownMessages and SetProductInformation at any time, with ANY device index (statements in Spec/ApiSafeSpec.v; no call is
    excluded; histories containing SetMode assume at most 251 devices - the library allows 9 - because the model keeps source + i - 252
    unreduced where the C++ has a uint8_t: C07_api_unbounded_refuted is the 258-device witness). *)
 From N2kV Require Import Model.ApiDefs Spec.ApiSafeSpec Proofs.ApiSafeProofs.
@@ -113,7 +114,8 @@ Print Assumptions C07_api_unbounded_refuted.
    SendProductInformation on the cold node (reaches Open() through SendMsg, nothing goes out yet), the node opens and claims 22,
    then: a claim on request (broadcast with index -1 = device 0), calls with device indices -1 / 7 / -3 / 1 / 9 that the entry points
    refuse, the receive list by ISO-TP to 50, forced heartbeats, new instances and device information (the NAME changes), a fast-packet
-   list, SetMode(ListenAndNode, 251) (the device is re-addressed to 251 without a claim) and Restart (claim from 251). *)
+   list, new transmit / receive lists of device 0 (and of a device 5 that does not exist), SetHandleOnlyKnownMessages(true), new product
+   information, SetMode(ListenAndNode, 251) (the device is re-addressed to 251 without a claim) and Restart (claim from 251). *)
 Definition ex_api_ops : list xop :=
   [XApi (ASendProd 0);
    XBase RPoll; XBase (RBase (OTick 1)); XBase RPoll; XBase (RBase (OTick 201)); XBase RPoll; XBase (RBase (OTick 251)); XBase RPoll;
@@ -129,13 +131,18 @@ Definition ex_api_ops : list xop :=
    XApi (ASetDeviceInformation 0 12345 130 25 2046 4);
    XApi (ASetDeviceInformation 9 12345 130 25 2046 4);
    XApi (ASetPgnList 2 [130816; 0]);
+   XApi (ASetTxList 0 [126992; 0]);
+   XApi (ASetTxList 5 [1; 0]);
+   XApi (ASetRxList 0 [127250; 0]);
+   XApi (ASetOnlyKnown true);
+   XApi (ASetProductInformation [49; 50] 666 [65] [66] [67] 2 65535 255);
    XApi (ASetMode 2 251);
    XApi ARestart;
    XBase RPoll].
 Definition tx_per_op (evs:list (list event)) : list (list Z) := map (flat_map (fun e => match e with EvTx id _ _ _ => [id] | _ => [] end)) evs.
 
 Lemma ex_api_ops_ok : Forall xop_ok ex_api_ops.
-Proof. unfold ex_api_ops. repeat (constructor; try (simpl; unfold u8_ok; lia)). Qed.
+Proof. unfold ex_api_ops. repeat (constructor; try (simpl; unfold u8_ok, byte_ok; lia)). Qed.
 Print Assumptions ex_api_ops_ok.
 
 (* what the model does on this history (both with the library's group function handlers and without): claim 22, pending product
@@ -146,8 +153,10 @@ Example C07_api_nonvacuous :
   Forall xop_ok ex_api_ops /\ devs_bound 1 ex_api_ops /\ existsb is_set_mode ex_api_ops = true /\
   r_oob r' = false /\ dev_src r' 0 = 251 /\ n_mode (rn r') = 2 /\ d_name (get_dev (rn r') 0) = 14065447600048320569 /\
   fp0 (n_pgn (rn r')) = Some [130816; 0] /\
+  d_tx (get_dev (rn r') 0) = [126992; 0] /\ x_rx (get_devx r' 0) = [127250; 0] /\ c_only_known (r_cfg r') = true /\
+  firstn 5 (c_prodinfo (r_cfg r')) = [53; 8; 154; 2; 65] /\ length (c_prodinfo (r_cfg r')) = 134%nat /\
   tx_per_op evs = [[]; []; []; []; []; [418316054]; []; [435164182]; [418316054]; []; []; [418132502]; [502272278]; []; [502272278];
-                   []; []; []; []; []; []; [418316283]; []] /\
+                   []; []; []; []; []; []; []; []; []; []; []; [418316283]; []] /\
   tx_per_op (snd (xrun gf_none ex_node ex_api_ops)) = tx_per_op evs.
 Proof. split; [exact ex_api_ops_ok|]. split; [left; lia|]. vm_compute. repeat split; reflexivity. Qed.
 Print Assumptions C07_api_nonvacuous.
